@@ -557,8 +557,19 @@ func (s *state) addConnHandler(
 	// File descriptors hash for detecting updates. TODO: sort fds?
 	h := sha256.New()
 
+	// The services the back-end says it serves. Its files may declare more
+	// (other servers built from the same proto, services of imported files):
+	// those are not this connection's to handle.
+	listed := make(map[string]bool)
+
 	fds := make(map[string]*descriptorpb.FileDescriptorProto)
 	for _, svc := range r.GetListServicesResponse().GetService() {
+		listed[svc.GetName()] = true
+		// The list is part of what gets registered.
+		if _, err := h.Write(append([]byte(svc.GetName()), 0)); err != nil {
+			return err
+		}
+
 		if err := stream.Send(&rpb.ServerReflectionRequest{
 			MessageRequest: &rpb.ServerReflectionRequest_FileContainingSymbol{
 				FileContainingSymbol: svc.GetName(),
@@ -611,7 +622,7 @@ func (s *state) addConnHandler(
 			return err
 		}
 
-		hs, err := s.processFile(opts, cc, file)
+		hs, err := s.processFile(opts, cc, file, listed)
 		if err != nil {
 			return err
 		}
@@ -786,12 +797,15 @@ func createConnHandler(
 	}
 }
 
-func (s *state) processFile(opts muxOptions, cc *grpc.ClientConn, fd protoreflect.FileDescriptor) ([]*handler, error) {
+func (s *state) processFile(opts muxOptions, cc *grpc.ClientConn, fd protoreflect.FileDescriptor, listed map[string]bool) ([]*handler, error) {
 	var handlers []*handler
 
 	sds := fd.Services()
 	for i := 0; i < sds.Len(); i++ {
 		sd := sds.Get(i)
+		if !listed[string(sd.FullName())] {
+			continue
+		}
 
 		mds := sd.Methods()
 		for j := 0; j < mds.Len(); j++ {
